@@ -477,18 +477,39 @@ func VHarnessWalletReceive() {
 	env.checkNoLeak("receive")
 }
 
-// C19 crash points: holding one deterministic proof of 8, a send that needs a swap is killed before any one of its storage or HTTP calls (position
-// symbolic; or runs to its end); restoring from the mnemonic into an empty directory recovers exactly the value of this
-// seed's outputs that the mint still holds unspent.
-func VHarnessWalletCrashRestore() {
+// C19 crash points: holding one deterministic proof of 8, a send (through a swap) / a melt / a receive of a foreign token /
+// a mint is killed before any one of its storage or HTTP calls (position symbolic; or runs to its end); restoring from
+// the mnemonic into an empty directory recovers exactly the value of this seed's outputs that the mint still holds unspent.
+func vhCrashRestore(op int) {
 	vhDerivedIds = true
 	vhSeed = bip39.NewSeed(vhMnemonic, "")
 	env := vhNewWallet(100, 0, 0)
 	defer env.close()
-	env.mintDeterministic([]uint64{8}) // one proof of 8: the send needs a swap
-	amount := v.U64("send.amount")
-	v.Assume(amount >= 1 && amount <= 2)
-	hit := v.CrashRun(func() { env.w.Send(amount, env.mint.URL, true) })
+	env.mintDeterministic([]uint64{8}) // one proof of 8: send and melt need a swap / change
+	foreign := []string{}
+	var run func()
+	switch op {
+	case 0:
+		amount := v.U64("send.amount")
+		v.Assume(amount >= 1 && amount <= 2)
+		run = func() { env.w.Send(amount, env.mint.URL, true) }
+	case 1:
+		amount := uint64(v.Int("melt.amount", 1, 3))
+		env.db.SaveMeltQuote(storage.MeltQuote{QuoteId: "mq1", Mint: env.mint.URL, Method: "bolt11", State: nut05.Unpaid, Unit: "sat", PaymentRequest: "lnbc-mq1", Amount: amount, FeeReserve: 1})
+		env.mint.MeltQ["mq1"] = &vhMeltQuote{Amount: amount, FeeReserve: 1, State: nut05.Unpaid, Outcome: 2 * v.Int("melt.failed", 0, 1)}
+		run = func() { env.w.Melt("mq1") }
+	case 2:
+		p := cashu.Proof{Amount: 4, Id: vhKsIds[0], Secret: "token-secret-0", C: fmt.Sprintf("02%062d", 50)}
+		foreign = append(foreign, p.Secret)
+		tok, terr := cashu.NewTokenV4(cashu.Proofs{p}, env.mint.URL, cashu.Sat, false)
+		v.Assume(terr == nil)
+		run = func() { env.w.Receive(tok, false) }
+	default:
+		env.db.SaveMintQuote(storage.MintQuote{QuoteId: "q1", Mint: env.mint.URL, Method: "bolt11", State: nut04.Unpaid, Unit: "sat", PaymentRequest: "lnbc-q1", Amount: 3})
+		env.mint.MintQ["q1"] = &vhMintQuote{Amount: 3, State: nut04.Paid}
+		run = func() { env.w.MintTokens("q1") }
+	}
+	hit := v.CrashRun(run)
 	if hit {
 		v.Reach("struck")
 	} else {
@@ -506,7 +527,25 @@ func VHarnessWalletCrashRestore() {
 	if rerr != nil {
 		return
 	}
-	unspent := v.ZSub(env.mintIssuedValue(), env.mintSpentValue())
-	v.Assert(v.ZEq(v.ZU(got), unspent), "C19 restore after a wallet crash at any point of a send recovers exactly the value of this seed's outputs that is unspent at the mint")
+	// value of this seed's outputs still unspent at the mint: everything it signed minus the inputs it consumed,
+	// not counting inputs that came from a foreign token
+	unspent := env.mintIssuedValue()
+	for i, sct := range env.mint.Spent {
+		own := true
+		for _, f := range foreign {
+			if sct == f {
+				own = false
+			}
+		}
+		if own {
+			unspent = v.ZSub(unspent, v.ZU(env.mint.SpentAmounts[i]))
+		}
+	}
+	v.Assert(v.ZEq(v.ZU(got), unspent), "C19 restore after a wallet crash at any point of the operation recovers exactly the value of this seed's outputs that is unspent at the mint")
 	v.Reach("restored-after-crash")
 }
+
+func VHarnessWalletCrashRestore()        { vhCrashRestore(0) }
+func VHarnessWalletCrashRestoreMelt()    { vhCrashRestore(1) }
+func VHarnessWalletCrashRestoreReceive() { vhCrashRestore(2) }
+func VHarnessWalletCrashRestoreMint()    { vhCrashRestore(3) }
